@@ -1082,8 +1082,24 @@ def check_C13(tier, seed):
         fn = os.path.join(scratch(), "ol.json")
         json.dump(beh, open(fn, "w"))
         out = fn + ".out"
+        tf = fn + ".trace"
         p = run_jvh(["procs-run", "--orderings", fn, "--procs", len(procs), "--exists", int(exists), "--out", out,
-                     "--ungated", 40 if tier == "quick" else 600, "--seed", seed], timeout=3000)
+                     "--ungated", 40 if tier == "quick" else 600, "--seed", seed, "--trace-out", tf], timeout=3000)
+        # impl -> spec: the recorded order of hook points against the lock discipline
+        if os.path.exists(tf) and os.path.getsize(tf) > 0:
+            import l1
+            reps, stuck, st = l1.vlib_raw_tag("Trace_OpenLock", "Trace_OpenLock.cfg", tf, {}, "L3")
+            if stuck is not None:
+                raise ToolError("CONFORMANCE: Trace_OpenLock cannot match line %d" % stuck)
+            tl = read_lines(tf)
+            for r in reps:
+                start = r["line"]
+                while start > 1 and '"ev":"reset"' not in tl[start - 1]:
+                    start -= 1
+                v.report({"kind": "procs-trace", "rule": r["rule"], "procs": len(procs), "file_exists": exists},
+                         {"rule": r["rule"], "detail": r["detail"], "events": [json.loads(x) for x in tl[start - 1:r["line"]]]})
+            tot["states"] += st
+            os.remove(tf)
         lines = read_lines(out) if os.path.exists(out) else []
         for ln in lines:
             o = json.loads(ln)
